@@ -68,10 +68,40 @@ TEMPLATES = [
     Template("semgrep:python/enable-jinja2-autoescape", "semgrep",
              "python.flask.security.xss.audit.direct-use-of-jinja2.direct-use-of-jinja2", "from jinja2 import Environment\n",
              "v{i} = Environment()", "value", quick=False),
+    Template("sonar:python/url-sandbox", "sonar", "pythonsecurity:S5144", "import requests\n", "v{i} = requests.get(u{i})", "value", quick=False),
+    Template("semgrep:python/url-sandbox", "semgrep", "python.django.security.injection.ssrf.ssrf-injection-requests.ssrf-injection-requests",
+             "import requests\n", "v{i} = requests.get(u{i})", "value", quick=False),
+    Template("sonar:python/sandbox-process-creation", "sonar", "pythonsecurity:S2076", "import subprocess\n", "v{i} = subprocess.run(c{i})",
+             "value", quick=False),
+    Template("semgrep:python/sandbox-process-creation", "semgrep", "python.lang.security.dangerous-system-call.dangerous-system-call",
+             "import subprocess\n", "v{i} = subprocess.run(c{i})", "value", quick=False),
+    Template("semgrep:python/django-secure-set-cookie", "semgrep", DD_COOKIE, "", 'v{i} = resp.set_cookie("k{i}", "v")', "value", quick=False),
+    Template("semgrep:python/use-defusedxml", "semgrep", "python.lang.security.use-defused-xml-parse.use-defused-xml-parse",
+             "from xml.etree.ElementTree import parse\n", 'v{i} = parse("f{i}.xml")', "value", quick=False),
+    Template("sonar:python/fix-float-equality", "sonar", "python:S1244", "", "v{i} = a{i} == 0.1", "value", tested_kind="KOther", quick=False),
     Template("defectdojo:python/avoid-insecure-deserialization", "defectdojo", DD_DESER, "import yaml\n", "v{i} = yaml.load(d{i})",
              "value"),
     Template("defectdojo:python/django-secure-set-cookie", "defectdojo", DD_COOKIE, "", 'v{i} = resp.set_cookie("k{i}", "v")', "value"),
 ]
+
+# SAST codemods of the registry that have NO end-to-end template here, and why.  A registered SAST codemod that is neither in
+# TEMPLATES nor here is reported as lost coverage (mismatch); so is a template whose id is not registered.
+NOT_COVERED = {
+    "semgrep:python/no-csrf-exempt": "acts on a decorator (own selection code, no node_is_selected); needs a Django view layout",
+    "semgrep:python/sql-parameterization": "data-flow driven rewrite over several statements; site = a query built from pieces",
+    "sonar:python/sql-parameterization": "same transformer",
+    "semgrep:python/nan-injection": "own selection and attachment code over an expression inside float(...)",
+    "sonar:python/literal-or-new-object-identity": "tests the comparison OPERATOR node",
+    "sonar:python/django-receiver-on-top": "decorator reordering; site = a decorated function",
+    "sonar:python/exception-without-raise": "the statement text survives inside the fix (`raise <stmt>`): needs a structural observation",
+    "sonar:python/remove-assertion-in-pytest-raises": "multi-statement `with pytest.raises` block",
+    "sonar:python/flask-json-response-type": "needs a Flask view returning json.dumps(...)",
+    "sonar:python/django-json-response-type": "needs a Django view returning HttpResponse(json.dumps(...))",
+    "sonar:python/fix-missing-self-or-cls": "tests a FunctionDef through node_position's special case",
+    "sonar:python/django-model-without-dunder-str": "class-level site",
+    "sonar:python/break-or-continue-out-of-loop": "statement-level site without a marker",
+    "sonar:python/disable-graphql-introspection": "needs a graphql view construction",
+}
 
 RCLASS = {"sonar": "RSonar", "semgrep": "RBase", "defectdojo": "RDefectDojo"}
 FOREIGN_RULE = {"sonar": "python:S9999", "semgrep": "python.lang.foreign.other-rule.other-rule", "defectdojo": "foreign.rule.other"}
